@@ -2,6 +2,8 @@ package main
 
 import (
 	"bytes"
+	"compress/gzip"
+	"io"
 	"encoding/binary"
 	"fmt"
 
@@ -124,7 +126,9 @@ func (t *oracleTables) learn(payload []byte, newMsg func() proto.Message, client
 		t.add(0, t.decompress, payload, L{Bb(un)})
 		plainCandidates = append(plainCandidates, un)
 	} else {
-		if _, ok := t.decompress[string(payload)]; !ok && err == nil {
+		// bounded decompression reports "too big" as soon as limit+1 bytes came out, even if the
+		// stream would turn out to be corrupt further on
+		if _, ok := t.decompress[string(payload)]; !ok && gunzipExceeds(payload, limit) {
 			t.tooBig = append(t.tooBig, string(payload))
 		}
 		t.add(0, t.decompress, payload, L{})
@@ -482,9 +486,35 @@ func init() {
 			if skip {
 				continue
 			}
+			if i%5 == 0 && !rc.endErr {
+				// the same stream under other chunkings and buffer sizes (C08, request side)
+				outs := L{out}
+				for variant := 0; variant < 3; variant++ {
+					alt := rc
+					alt.chunks = splitChunks(r, rc.body, variant)
+					alt.eofLast = variant == 1
+					alt.sizes = [][]int{{512}, {1}, {3, 1, 7, 2}}[variant]
+					ain, aout, askip := alt.run()
+					if askip {
+						continue
+					}
+					outs = append(outs, aout)
+					c.emit(Case{Suite: "reader.drain", In: ain, Out: aout, Tags: []string{"reader:" + tag, "reader.variant"}})
+				}
+				c.emit(Case{Suite: "reader.meta", In: L{}, Out: outs, Tags: []string{"reader.meta:" + tag}})
+			}
 			adapter := []string{"enveloping", "transforming", "passthrough"}[in[4].(int64)]
 			pairing := fmt.Sprintf("%s>%s", formNames[rc.form], rc.target)
 			c.emit(Case{Suite: "reader.drain", In: in, Out: out, Tags: []string{"reader:" + tag, "reader.adapter:" + adapter, "reader.pair:" + pairing, fmt.Sprintf("reader.sizes:%d", len(rc.sizes))}})
 		}
 	}
+}
+
+func gunzipExceeds(b []byte, limit int64) bool {
+	zr, err := gzip.NewReader(bytes.NewReader(b))
+	if err != nil {
+		return false
+	}
+	n, _ := io.Copy(io.Discard, io.LimitReader(zr, limit+1))
+	return n > limit
 }
